@@ -50,7 +50,7 @@ func newTokenBucket(rate *rate) *tokenBucket {
 
 	return &tokenBucket{
 		period:          period,
-		timePerToken:    time.Duration(int64(period) / rate.average),
+		timePerToken:    maxDuration(1, time.Duration(int64(period)/rate.average)),
 		burst:           rate.burst,
 		lastRefresh:     clock.Now().UTC(),
 		availableTokens: rate.burst,
@@ -93,7 +93,7 @@ func (tb *tokenBucket) update(rate *rate) error {
 	if rate.period != tb.period {
 		return fmt.Errorf("period mismatch: %v != %v", tb.period, rate.period)
 	}
-	tb.timePerToken = time.Duration(int64(tb.period) / rate.average)
+	tb.timePerToken = maxDuration(1, time.Duration(int64(tb.period)/rate.average))
 	tb.burst = rate.burst
 	if tb.availableTokens > rate.burst {
 		tb.availableTokens = rate.burst
